@@ -84,6 +84,20 @@ def main():
                         continue
                     raise vlib.Infra("vh api failed rc=%d: %s" % (rc, o[-800:]))
                 paths.append(out)
+            if k == 0:
+                # schedule 7 depends on whether the average binds at that height: played at every height of this chain
+                for c in range(base + 2, doc["tip"] - 2):
+                    if c in heights:
+                        continue
+                    out = os.path.join(work, "gates7-%d-%d.ndjson" % (k, c))
+                    rc, o = vlib.run([vh, "api", "-scenario", sp, "-out", out, "-work", os.path.join(work, "w7_%d_%d" % (k, c)), "-mode", "gates", "-at", str(c), "-only", "7"],
+                                     timeout=600, env={"LXRBITSIZE": "8"})
+                    if rc in (1, 2):
+                        issues.append((out, 0, "C18", "daemon crashed while serving API requests: rc=%d %s" % (rc, o[-300:])))
+                    elif rc != 0:
+                        raise vlib.Infra("vh api failed rc=%d: %s" % (rc, o[-800:]))
+                    else:
+                        paths.append(out)
             # load, with the race detector
             out = os.path.join(work, "load-%d.ndjson" % k)
             rc, o = vlib.run([vhr, "api", "-scenario", sp, "-out", out, "-work", os.path.join(work, "wl%d" % k), "-mode", "load",
